@@ -264,7 +264,9 @@ def ob_literal(i: int, raw: bool) -> Optional[str]:
 # ----------------------------------------------------------------------------
 OUTPUTS = [("a b", ["a", "b"]), ("a  b\n", ["a", "b"]), ("'a b' c", ["'a b'", "c"]), ("*", ["*"]), ("$HOME", ["$HOME"]), ("~", ["~"]),
            ("a\tb", ["a", "b"]), ("x\ny\n", ["x", "y"]), ("", []), ("a*b c?", ["a*b", "c?"]), ("`ls`", ["`ls`"])]
-MACROS = [' some  raw "text" $A', " a;b && c | d", " @(x) $(y)", "  lead", " trailing  ", " 'q' \\ z"]
+MACROS = [' some  raw "text" $A', " a;b && c | d", " @(x) $(y)", "  lead", " trailing  ", " 'q' \\ z",
+          # macro text spanning physical lines (possible inside explicit subprocess brackets, with an open bracket in the text)
+          ("$[cmd !{}]", " x (1,\n 2) y"), ("![cmd !{}]", " x [1,\n    2,\n  3] y"), ("$(cmd !{})", " (a,\n b)"), ("$[cmd !{}]", " x (1,\n2) y")]
 
 
 def _inject(i):
@@ -292,7 +294,11 @@ def _inject(i):
 def _macro(i):
     _prepare()
     body = MACROS[i]
-    code = XSH.execer.compile("cmd !" + body + "\n", mode="exec", glbs={}, locs=None, filename="<vf-c04-macro>")
+    if isinstance(body, tuple):
+        src, body = body[0].format(body[1]), body[1]
+    else:
+        src = "cmd !" + body
+    code = XSH.execer.compile(src + "\n", mode="exec", glbs={}, locs=None, filename="<vf-c04-macro>")
     del REC[:]
     saved = S.run_subproc
     S.run_subproc = _run_subproc
@@ -303,7 +309,7 @@ def _macro(i):
     argv = REC[0][0]
     want = body.strip()
     if argv != ["cmd", want]:
-        return f"macro-text: `cmd !{body}` delivered {argv}, the source text is {want!r}"
+        return f"macro-text: {src!r} delivered {argv}, the source text after the ! is {want!r}"
     return None
 
 
